@@ -258,6 +258,18 @@ def generate():
     out.append('Definition ityp_code (t : ityp) : N :=\n  match t with\n' +
                ''.join('  | %s => %d\n' % (iname(t), i) for i, t in enumerate(ITYPES)) + '  end.\n')
     out.append('Definition ityp_eqb (a b : ityp) : bool := N.eqb (ityp_code a) (ityp_code b).\n')
+    # New.append: typ.endswith('-selector')  (the suffix literal is taken from the source)
+    suffixes = set()
+    for node in ast.walk(new_funcs['append']):
+        if isinstance(node, ast.Call) and isinstance(node.func, ast.Attribute) and node.func.attr == 'endswith' \
+                and isinstance(node.func.value, ast.Name) and node.func.value.id == 'typ':
+            suffixes.add(node.args[0].value)
+    if len(suffixes) != 1:
+        raise Untranslatable('New.append: typ.endswith(...) test not found / not unique: %r' % (suffixes,))
+    suffix = suffixes.pop()
+    out.append('(* typ.endswith(%r), computed by Python for every item type *)\n' % suffix)
+    out.append('Definition ityp_is_selector (t : ityp) : bool :=\n  match t with\n' +
+               ''.join('  | %s => true\n' % iname(t) for t in ITYPES if t.endswith(suffix)) + '  | _ => false\n  end.\n')
     # ---- literal tuples
     legacy = None
     for node in ast.walk(new_funcs['_pseudo']):
